@@ -569,6 +569,7 @@ func subRT(args []string) int {
 			}
 		}
 		mainName := filepath.Join(root, "Casketfile")
+		SetCaseEnv(int(i))
 		g.begin(i)
 		o := guardedParse(mainName, []byte(rc.Files["Casketfile"]), int64(rc.Imports))
 		g.mu.Lock()
